@@ -787,7 +787,31 @@ def parse_cfg(toks):
     return r
 
 
-def g5_cfg(mod_toks, rt_toks):
+def module_facts(name, toks):
+    """top-level `pub fn` names and sibling modules referenced through `super::` of one module file"""
+    exports = []
+    depth = 0
+    for i, t in enumerate(toks):
+        if t == ("op", "{"):
+            depth += 1
+        elif t == ("op", "}"):
+            depth -= 1
+        elif depth == 0 and t == ("ident", "fn"):
+            j = i - 1
+            vis = []
+            while j >= 0 and toks[j][0] == "ident" and toks[j][1] in ("pub", "unsafe", "const"):
+                vis.append(toks[j][1])
+                j -= 1
+            if "pub" in vis:
+                exports.append(toks[i + 1][1])
+    refs = set()
+    for i in range(len(toks) - 2):
+        if toks[i] == ("ident", "super") and toks[i + 1] == ("op", "::") and toks[i + 2][0] == "ident":
+            refs.add(toks[i + 2][1])
+    return exports, sorted(refs)
+
+
+def g5_cfg(mod_toks, rt_toks, files=None):
     """items of simd/mod.rs that are not part of the verif hook, each with its cfg"""
     out = []
     items = []      # (kind, name, cfg expr, body toks or None)
@@ -888,6 +912,15 @@ def g5_cfg(mod_toks, rt_toks):
             disp.append((fn, consts[c], mod))
         if m.group(7) != fn:
             raise TranslationError("runtime.rs %s: default arm calls %s" % (fn, m.group(7)))
+    if files:
+        ex, rf = [], []
+        for name, toks in files:
+            e, r = module_facts(name, toks)
+            ex.append('("%s", [%s])' % (name, "; ".join('"%s"' % x for x in e)))
+            rf.append('("%s", [%s])' % (name, "; ".join('"%s"' % x for x in r)))
+        out.append("(* per module file: public functions; sibling modules referenced through super:: *)\n"
+                   "Definition module_exports : list (string * list string) :=\n  [ " + ";\n    ".join(ex) + " ].\n")
+        out.append("Definition module_refs : list (string * list string) :=\n  [ " + ";\n    ".join(rf) + " ].\n")
     out.append("(* runtime dispatch: entry point, cached id, module; any other id -> swar *)\n"
                "Definition runtime_dispatch : list (string * N * string) :=\n  [ "
                + ";\n    ".join('("%s", %d, "%s")' % d for d in disp) + " ].\n")
@@ -964,7 +997,8 @@ def main():
         return (HEADER % "src/simd/mod.rs, src/simd/runtime.rs" +
                 "From Coq Require Import List NArith Bool String.\nFrom HV Require Import CfgBase.\n"
                 "Import ListNotations.\nLocal Open Scope string_scope.\nLocal Open Scope N_scope.\n\n" +
-                g5_cfg(toks("src/simd/mod.rs"), toks("src/simd/runtime.rs")))
+                g5_cfg(toks("src/simd/mod.rs"), toks("src/simd/runtime.rs"),
+                       [(m, toks("src/simd/%s.rs" % m)) for m in ("swar", "sse42", "avx2", "runtime", "neon")]))
 
     gen("Classes.v", classes)
     gen("Swar.v", swar)
